@@ -403,3 +403,38 @@ Proof.
   pose proof (readbacks_concat res Hr batches Hc) as RB. cbv zeta in RB. subst out. rewrite RB.
   cbn [list_eqb]. rewrite !samples_eqb_refl. reflexivity.
 Qed.
+
+(* clause 4 on its own: the querier's chunkSeriesIterator returns the concatenated rows *)
+Lemma readback_exact res nc data :
+  valid_raw res data ->
+  exists out, downsample_raw_m res nc data = Some out /\
+    readbacks out =
+      [ concat (map (fun c => olist (k_count c)) out); concat (map (fun c => olist (k_sum c)) out);
+        concat (map (fun c => olist (k_min c)) out); concat (map (fun c => olist (k_max c)) out) ].
+Proof.
+  intros Hv. destruct (raw_structure res nc data Hv) as (batches & E & Hcat & Hgood & Hsep).
+  exists (map (float_batch cw res) batches). split; [exact E|].
+  destruct Hv as (Hr & _ & _).
+  destruct (labels_chain res Hr batches None Hgood Hsep I) as [Hc _].
+  exact (readbacks_concat res Hr batches Hc).
+Qed.
+
+(* ---- tie T for the batch sizes: the formulas written in the model are the ones in the
+   Go source (regenerated into Gen on every run) ---- *)
+
+Lemma raw_batch_size_model len nc :
+  Z.to_nat (raw_batch_size (Z.of_nat len) (Z.of_nat nc)) = (len / nc + 1)%nat.
+Proof.
+  unfold raw_batch_size. cbv zeta beta. destruct nc as [|nc'].
+  - change (Z.of_nat 0) with 0. destruct (Z.of_nat len); reflexivity.
+  - rewrite Z.quot_div_nonneg by lia. rewrite <- Nat2Z.inj_div.
+    rewrite Z2Nat.inj_add by lia. rewrite Nat2Z.id. reflexivity.
+Qed.
+
+Lemma aggr_batch_size_model len nc :
+  Z.to_nat (aggr_batch_size (Z.of_nat len) (Z.of_nat nc)) = (len / nc)%nat.
+Proof.
+  unfold aggr_batch_size. cbv zeta beta. destruct nc as [|nc'].
+  - change (Z.of_nat 0) with 0. destruct (Z.of_nat len); reflexivity.
+  - rewrite Z.quot_div_nonneg by lia. rewrite <- Nat2Z.inj_div. apply Nat2Z.id.
+Qed.
